@@ -5,6 +5,7 @@ use crate::langs::{self, L};
 use crate::stream::{self, HTok, Occ};
 use crate::vocab;
 use serde_json::json;
+use text2num::LangInterpreter;
 
 
 pub const T: [f64; 10] = [f64::NEG_INFINITY, -1.0, 0.0, 1.0, 5.0, 9.0, 10.0, 1000.0, f64::INFINITY, f64::NAN];
@@ -35,8 +36,13 @@ fn transparent(l: L, lang: &text2num::Language, text: &str) -> bool {
     }
     // the linking words are the interpreter's documented list (extracted from the pinned tree), not whatever
     // `is_linking` answers: a lookup that loses some of them must not take the oracle with it
-    let _ = lang;
-    low == l.conj() || vocab::linking_words(l).iter().any(|w| *w == low)
+    // (a word-like literal of the current source tree that no alphabet knows is explored too, see the run function:
+    // for those — and only for those — the library's own `is_linking` decides, so that a consistent extension of
+    // the vocabulary is not an alarm while a word that is swallowed without being declared linking is)
+    low == l.conj() || vocab::linking_words(l).iter().any(|w| *w == low) || (NEW_LITERALS.with(|n| n.borrow().iter().any(|w| *w == low)) && lang.is_linking(&low))
+}
+thread_local! {
+    static NEW_LITERALS: std::cell::RefCell<Vec<String>> = const { std::cell::RefCell::new(Vec::new()) };
 }
 
 /// The policy: which of the threshold-0 occurrences `r` are rewritten at threshold `t`.
@@ -155,7 +161,7 @@ pub fn alphabet(l: L, n: usize) -> Vec<String> {
     // digit below/at thresholds 5 and 9, multi-digit, ordinals, linking, conjunction, ordinary, punctuation
     let v = vec![
         c.one, c.unit, c.tens, c.ordinary, ",".to_string(), c.small_ord, c.linking, ".".to_string(), c.sep, c.conj, c.unit2, c.large_ord, c.zero, c.hundred, " ".to_string(),
-        c.teen, "!".to_string(), ". ".to_string(), format!("!{}", vocab::cls(l).unit), format!("!{}", vocab::cls(l).linking), "qw'fp".to_string(), "b2".to_string(), "xyzzy,".to_string(), ".\u{a0}".to_string(), "e-xyzzy".to_string(), "?!".to_string(),
+        c.teen, "!".to_string(), ". ".to_string(), format!("!{}", vocab::cls(l).unit), format!("!{}", vocab::cls(l).linking), "qw'fp".to_string(), "b2".to_string(), "xyzzy,".to_string(), ".\u{a0}".to_string(), "e-xyzzy".to_string(), "?!".to_string(), " .".to_string(), " . ".to_string(),
     ];
     let mut out: Vec<String> = vec![];
     for w in v {
@@ -173,7 +179,7 @@ pub fn alphabet(l: L, n: usize) -> Vec<String> {
 
 pub fn run(tier: Tier) -> i32 {
     let ctx = Ctx::new("C09", tier);
-    let (n1, k1, n2, k2) = tier.pick((25usize, 4usize, 11usize, 6usize), (25, 5, 11, 7));
+    let (n1, k1, n2, k2) = tier.pick((27usize, 4usize, 11usize, 6usize), (27, 5, 11, 7));
     let mut total = Acc::new();
     let mut alphas = vec![];
     let rmax = tier.pick(40usize, 300usize);
@@ -200,6 +206,28 @@ pub fn run(tier: Tier) -> i32 {
                     one_stream(&ctx, acc, l, &lang, syms)
                 }
             }));
+        }
+        // word-like literals of the CURRENT source tree that no alphabet knows and that are not numbers on their own:
+        // ordinary words unless the library's is_linking says otherwise
+        {
+            let c = vocab::cls(l);
+            let news: Vec<String> = vocab::new_source_literals(l)
+                .into_iter()
+                .map(|w| w.to_lowercase())
+                .filter(|w| !w.contains(' ') && w.chars().all(|ch| ch.is_alphabetic()) && !matches!(guard(|| text2num::text2digits(w, &lang)), Ok(Ok(_))))
+                .collect();
+            for w in &news {
+                let a5: Vec<String> = vec![c.one.clone(), c.unit.clone(), c.tens.clone(), w.clone(), ",".to_string()];
+                let wl = vec![w.clone()];
+                total.merge(explore::all_sequences(&a5, 4, |syms, acc| {
+                    if syms.iter().any(|s| s == w) {
+                        NEW_LITERALS.with(|n| *n.borrow_mut() = wl.clone());
+                        one_stream(&ctx, acc, l, &lang, syms);
+                        NEW_LITERALS.with(|n| n.borrow_mut().clear());
+                    }
+                }));
+            }
+            alphas.push(json!({"lang": l.code(), "new_source_literals_explored": news}));
         }
         // near misses of the linking words (an added or dropped final letter, a plural): ordinary words, so they
         // break the sequence — unless the result is itself a linking word or a number word
